@@ -155,6 +155,20 @@ Proof.
   { rewrite Forall_forall in *. intros p Hp. rewrite L1. now apply Hr. }
   fold (sp_assigns isz (sp_assign isz A sub v) l). repeat split; auto; try apply W2. congruence.
 Qed.
+
+(* ... and it denotes the dense array after the same history of point updates: at every position the last assignment wins *)
+Theorem sp_assigns_den (l : list (idx * V)) : forall (A : sparse V), wf_sp isz A ->
+  Forall (fun p => length (fst p) = length (sshape A)) l ->
+  forall i, den_sp v0 (sp_assigns isz A l) i = hist_lookup l i (den_sp v0 A i).
+Proof.
+  induction l as [|[sub v] l IH]; intros A W Hl i; cbn [sp_assigns fold_left hist_lookup]; [reflexivity|].
+  apply Forall_cons_iff in Hl as [Hs Hr]. cbn [fst snd] in *.
+  destruct (sp_assign_correct A sub v W Hs) as (W1 & S1 & _ & _ & D1).
+  assert (L1 : length (sshape (sp_assign isz A sub v)) = length (sshape A)) by (rewrite S1; now apply grow_length).
+  fold (sp_assigns isz (sp_assign isz A sub v) l). rewrite IH; auto.
+  - rewrite D1. reflexivity.
+  - rewrite Forall_forall in *. intros p Hp. rewrite L1. now apply Hr.
+Qed.
 End AssignProofs.
 
 (* ---- a request after the assignment is answered from the tensor as it is NOW: every position of the GROWN shape ---- *)
